@@ -35,6 +35,13 @@ def main(argv):
         return 2
     prop = argv[1]
     tier = common.tier_from_args(argv)
+    if prop == "selftest":
+        import selftest
+        try:
+            return selftest.main()
+        except common.MachineryError as e:
+            print("MACHINERY-FAILURE selftest: %s" % e)
+            return 2
     try:
         if CHECKS[prop] == "pprops":
             import pprops
